@@ -1643,7 +1643,7 @@ func (rc *readerCheck) buffer(f *ssa.Function, v, r, lim ssa.Value, key string, 
 
 // R04.1 limit slicing in the bytes entry
 var ruleLimitSlice = &core.Rule{ID: "R04.1", Min: 5,
-	Doc: "the bytes entry hands the walk exactly the first `limit` bytes: tabulated over the order types of (limit = 0?, len vs limit) the walk receives the parameter itself iff limit = 0 or len <= limit, else in[:limit] with the snapshot limit, which is also the limit argument",
+	Doc: "the bytes entry hands the walk exactly the first `limit` bytes: tabulated over the order types of (limit = 0?, len vs limit) the walk receives the parameter itself iff limit = 0 or len <= limit, else in[:limit] with the snapshot limit, which is also the limit argument (the cut may sit in a helper or method of a named limit type; a bound built by min / max alone is judged by its value)",
 	Run: func(c *core.Ctx, s *core.Sink) {
 		m := getWalk(c)
 		cm := getConc(c)
